@@ -264,7 +264,8 @@ fn event_matches(ev: &LogEvent, exp: &ExpEvent) -> Result<(), String> {
         (Some(a), Some(b), Some(c)) => (a, b, c),
         _ => return Err(format!("fixed members time/level/time_ns missing in {line:?}")),
     };
-    if pairs[li].1 != format!("{:?}", exp.level) {
+    // ("error|info": either level is accepted)
+    if !exp.level.split('|').any(|l| pairs[li].1 == format!("{l:?}")) {
         return Err(format!("level {} but {:?} expected", pairs[li].1, exp.level));
     }
     let got_vec: Vec<(String, String)> = pairs.iter().enumerate().filter(|(i, _)| *i != ti && *i != li && *i != ni).map(|(_, p)| p.clone()).collect();
@@ -448,12 +449,13 @@ fn scenario(cfg: &RunCfg) -> Outcome {
                 let body_len = if gen::ratio(1, 4) { None } else { Some(u64::from(gen::below(30))) };
                 let inner = if gen::ratio(1, 3) { Some(format!("inner{step}")) } else { None };
                 let result = if gen::ratio(1, 2) {
-                    HRes::Ok { code: gen::pick(&[200u16, 201, 404]), body: format!("b{}", gen::below(99)) }
+                    HRes::Ok { code: gen::pick(&[200u16, 201, 404, 204, 303, 100, 499]), body: format!("b{}", gen::below(99)) }
                 } else {
                     HRes::Err {
                         msg: if gen::ratio(1, 2) { Some(format!("boom{step}")) } else { None },
                         tags: gen_tags(3),
-                        response: if gen::ratio(1, 2) { Some((gen::pick(&[400u16, 403, 503]), format!("e{}", gen::below(9)))) } else { None },
+                        // (also non-failure statuses: handlers leave early with Err(redirect) and the like)
+                        response: if gen::ratio(1, 2) { Some((gen::pick(&[400u16, 403, 503, 500, 404, 303, 200, 204, 100, 399]), format!("e{}", gen::below(9)))) } else { None },
                     }
                 };
                 // the wrapper starts from a clean per-thread tag set
@@ -487,7 +489,10 @@ fn scenario(cfg: &RunCfg) -> Outcome {
                         };
                         ct.push(("code".into(), Some(code.to_string())));
                         ct.push(("response_body_len".into(), Some(body.len().to_string())));
-                        ("error", ct, (code, body))
+                        // an Err is logged at error level; for an Err that carries a non-failure
+                        // response "accordingly" can be read either way, so both levels pass -
+                        // the error's message and tags must be there in any case
+                        (if code < 400 { "error|info" } else { "error" }, ct, (code, body))
                     }
                 };
                 call_tags.extend(tt.iter().cloned());
@@ -621,7 +626,7 @@ fn scenario(cfg: &RunCfg) -> Outcome {
             by_specificity.sort_by_key(|e| std::cmp::Reverse(e.tags.iter().map(|(n, v)| n.len() + v.as_ref().map(|x| x.len()).unwrap_or(0)).sum::<usize>()));
             for ev in by_specificity {
                 let matches = |l: &str| -> bool {
-                    if !l.contains(ev.level) {
+                    if !ev.level.split('|').any(|lv| l.contains(lv)) {
                         return false;
                     }
                     let mut pos = 0usize;
